@@ -570,12 +570,13 @@ type c16History struct {
 	blocks   []bookkeeping.Block     // index == round
 	labels   map[basics.Round]string // producer's label per catchpoint round
 	scr      cpxScript
+	excluded func(string)
 	rootOK   map[basics.Round]bool // DB rounds at which the producer's trie root was compared with the model
 	hadOps   int
 }
 
 func c16BuildHistory(tb *testing.T, t *rapid.T, vk *vkCtx, proto cpxProto, profile string, scripted bool) *c16History {
-	h := &c16History{proto: proto, labels: map[basics.Round]string{}}
+	h := &c16History{proto: proto, labels: map[basics.Round]string{}, excluded: vk.Excluded}
 	h.interval = rapid.SampledFrom([]uint64{4, 8, 4}).Draw(t, "interval")
 	spec := cpxNodeSpec{Interval: h.interval, Tracking: config.CatchpointTrackingModeStored, TrieCache: 9000}
 	w := engcNewWorld(tb, t, engcOpts{Proto: proto.CV, Profile: profile, Label: vk.Label, MaxGroupsPerBlock: 4,
@@ -595,7 +596,7 @@ func (h *c16History) run(t *rapid.T, n int, scripted bool) {
 		if scripted {
 			sc = &h.scr
 		}
-		cpxScriptedBlock(w, t, sc, 4)
+		cpxScriptedBlock(w, t, sc, 4, h.excluded)
 		switch op := ops[rapid.IntRange(0, len(ops)-1).Draw(t, "producer.op")]; op {
 		case "commit":
 			w.Node.OpCommit()
